@@ -82,6 +82,9 @@ func vC23_size(_ proto.MarshalOptions, m proto.Message) int {
 	return len(m.(*vC23Msg).payload)
 }
 
+// substituted for proto.Size (the serializer sizes the payload with it before MarshalAppend reuses the cached size)
+func vC23_protoSize(m proto.Message) int { return len(m.(*vC23Msg).payload) }
+
 func vC23_marshalAppend(_ proto.MarshalOptions, b []byte, m proto.Message) ([]byte, error) {
 	return append(b, m.(*vC23Msg).payload...), nil
 }
